@@ -345,13 +345,14 @@ theorem seg_frac (tape : Array UInt64) (fuel : Nat) (e : Env) (dd nd dp prec neg
 theorem fmtF_exec (tape : Array UInt64) (fuel : Nat) (e : Env) (dd nd dp prec neg) (dst : Bytes)
     (h : FIn e dd nd dp prec neg) (hd : e.get "dst" = some (.bytes dst))
     (h0 : 0 ≤ nd) (h1 : nd ≤ dd.size) (hf : fmtFFuel nd dp prec ≤ fuel) :
-    ∃ e', exec goFuns fuel gofmtF.body ⟨e, tape⟩ = .ret ⟨e', tape⟩ [.bytes (dst ++ fmtFGo neg dd nd dp prec)] := by
+    ∃ e', exec goFuns fuel gofmtF.body ⟨e, tape⟩ = .ret ⟨e', tape⟩ [.bytes (dst ++ fmtFGo neg dd nd dp prec)] ∧
+      Keep e e' := by
   have hf1 : (dp - min nd dp).toNat + 2 ≤ fuel := by unfold fmtFFuel at hf; omega
   have hf2 : prec.toNat + 2 ≤ fuel := by unfold fmtFFuel at hf; omega
   obtain ⟨ea, a1, a2, a3⟩ := seg_sign tape fuel e dd nd dp prec neg dst h hd
   obtain ⟨eb, b1, b2, b3⟩ := seg_int tape fuel ea dd nd dp prec neg _ (h.keep a3) a2 h0 h1 hf1
   obtain ⟨ec, c1, c2, c3⟩ := seg_frac tape fuel eb dd nd dp prec neg _ ((h.keep a3).keep b3) b2 h1 hf2
-  refine ⟨ec, ?_⟩
+  refine ⟨ec, ?_, (a3.trans b3).trans c3⟩
   rw [gofmtF_body, exec, a1]
   simp only []
   rw [exec, b1]
@@ -391,5 +392,273 @@ theorem fmtFGo_model (neg : Bool) (s : Shortest) :
   all_goals
     have h2' := hpp.2
     simp [h1, h2, hpp, map_const_range', asc]
+
+/-! ## bits -/
+
+/-- `math.Abs(f)` on the bits -/
+def absOf (bits : UInt64) : UInt64 := bits &&& 0x7fffffffffffffff
+/-- the biased exponent field -/
+def exOf (bits : UInt64) : Nat := ((bits >>> 52) &&& 0x7ff).toNat
+/-- `bits >> 52` as a natural number -/
+def hiWord (bits : UInt64) : Nat := (bits >>> 52).toNat
+
+theorem hiWord_eq (bits : UInt64) : hiWord bits = bits.toNat / 2^52 := by
+  simp only [hiWord, UInt64.toNat_shiftRight, Nat.shiftRight_eq_div_pow]; rfl
+
+theorem exOf_eq (bits : UInt64) : exOf bits = bits.toNat / 2^52 % 2^11 := by
+  have h7 : (0x7ff : Nat) = 2^11 - 1 := by decide
+  simp only [exOf, UInt64.toNat_and, UInt64.toNat_shiftRight, Nat.shiftRight_eq_div_pow]
+  show bits.toNat / 2 ^ 52 &&& 2047 = _
+  rw [h7, Nat.and_two_pow_sub_one_eq_mod]
+
+theorem absOf_toNat (bits : UInt64) : (absOf bits).toNat = bits.toNat % 2^63 := by
+  have h7 : (0x7fffffffffffffff : Nat) = 2^63 - 1 := by decide
+  simp only [absOf, UInt64.toNat_and]
+  show bits.toNat &&& 0x7fffffffffffffff = _
+  rw [h7, Nat.and_two_pow_sub_one_eq_mod]
+
+theorem toInt64_shr52 (bits : UInt64) : toInt64 (bits >>> 52) = ((hiWord bits : Nat) : Int) := by
+  have := hiWord_eq bits
+  have hb := bits.toNat_lt
+  have h : (bits >>> 52).toNat < 2^63 := by unfold hiWord at this; omega
+  unfold toInt64 hiWord
+  rw [if_pos h]
+
+theorem hiWord_and (bits : UInt64) : hiWord bits &&& 2047 = exOf bits := by
+  simp only [hiWord, exOf, UInt64.toNat_and]; rfl
+
+theorem exOf_abs (bits : UInt64) : exOf (absOf bits) = exOf bits := by
+  rw [exOf_eq, exOf_eq, absOf_toNat]; omega
+
+theorem fr_abs (bits : UInt64) : (absOf bits &&& 0xfffffffffffff).toNat = (bits &&& 0xfffffffffffff).toNat := by
+  rw [fr_toNat, fr_toNat, absOf_toNat]; omega
+
+theorem isFinite_iff (bits : UInt64) : F64.isFinite bits = true ↔ exOf bits ≠ 2047 := by
+  unfold F64.isFinite exOf
+  rw [bne_iff_ne, Ne, ← UInt64.toNat_inj]
+  rfl
+
+/-- `math.IsInf(f, 0) || math.IsNaN(f)` is false for a finite `f` … -/
+theorem fin_facts (bits : UInt64) (h : F64.isFinite bits = true) :
+    (absOf bits == 0x7ff0000000000000) = false ∧ decide (absOf bits > 0x7ff0000000000000) = false := by
+  have hx := (isFinite_iff bits).1 h
+  rw [exOf_eq] at hx
+  have ha := absOf_toNat bits
+  have hlt : (absOf bits).toNat < 0x7ff0000000000000 := by rw [ha]; omega
+  constructor
+  · rw [beq_eq_false_iff_ne, Ne, ← UInt64.toNat_inj]
+    show ¬ (absOf bits).toNat = 0x7ff0000000000000
+    omega
+  · rw [decide_eq_false_iff_not, gt_iff_lt, UInt64.lt_iff_toNat_lt]
+    show ¬ 0x7ff0000000000000 < (absOf bits).toNat
+    omega
+
+/-- … and true otherwise -/
+theorem nonfin_facts (bits : UInt64) (h : F64.isFinite bits = false) :
+    (absOf bits == 0x7ff0000000000000) = true ∨
+      ((absOf bits == 0x7ff0000000000000) = false ∧ decide (absOf bits > 0x7ff0000000000000) = true) := by
+  have hx : exOf bits = 2047 := by
+    by_cases hh : exOf bits = 2047
+    · exact hh
+    · rw [(isFinite_iff bits).2 hh] at h; cases h
+  rw [exOf_eq] at hx
+  have ha := absOf_toNat bits
+  have hb := bits.toNat_lt
+  by_cases he : absOf bits = 0x7ff0000000000000
+  · left; simp [he]
+  · right
+    refine ⟨by simp [he], ?_⟩
+    rw [decide_eq_true_iff, gt_iff_lt, UInt64.lt_iff_toNat_lt]
+    have : ¬ (absOf bits).toNat = 0x7ff0000000000000 := fun hh => he (UInt64.toNat_inj.mp hh)
+    show 0x7ff0000000000000 < (absOf bits).toNat
+    omega
+
+theorem abs_and_self (a : UInt64) (h : a.toNat < 2^63) : a &&& 0x7fffffffffffffff = a := by
+  apply UInt64.toNat_inj.mp
+  have := absOf_toNat a
+  unfold absOf at this
+  rw [this]; omega
+
+theorem shr63_zero (a : UInt64) (h : a.toNat < 2^63) : a >>> 63 = 0 := by
+  apply UInt64.toNat_inj.mp
+  simp only [UInt64.toNat_shiftRight, Nat.shiftRight_eq_div_pow]
+  show a.toNat / 2^63 = 0
+  omega
+
+def fkey (x : UInt64) : Int :=
+  if (x >>> 63) != 0 then -(((x &&& 0x7fffffffffffffff).toNat : Nat) : Int) else (((x &&& 0x7fffffffffffffff).toNat : Nat) : Int)
+def fnan (x : UInt64) : Bool := (x &&& 0x7fffffffffffffff) > 0x7ff0000000000000
+
+theorem fcmpBits_ge (a b : UInt64) :
+    fcmpBits .ge a b = if fnan a || fnan b then some false else some (decide (fkey a ≥ fkey b)) := rfl
+theorem fcmpBits_lt (a b : UInt64) :
+    fcmpBits .lt a b = if fnan a || fnan b then some false else some (decide (fkey a < fkey b)) := rfl
+theorem fcmpBits_eq (a b : UInt64) :
+    fcmpBits .eq a b = if fnan a || fnan b then some false else some (fkey a == fkey b) := rfl
+
+/-- Go's float comparisons on two non-negative, non-NaN values are the comparisons of the bit patterns -/
+theorem fcmpBits_pos (a c : UInt64) (ha : a.toNat ≤ 0x7ff0000000000000) (hc : c.toNat ≤ 0x7ff0000000000000) :
+    fcmpBits .ge a c = some (decide (a ≥ c)) ∧ fcmpBits .lt a c = some (decide (a < c)) ∧
+    fcmpBits .eq a c = some (a == c) := by
+  have ha1 := abs_and_self a (by omega)
+  have hc1 := abs_and_self c (by omega)
+  have ha2 := shr63_zero a (by omega)
+  have hc2 := shr63_zero c (by omega)
+  have hna : ¬ (0x7ff0000000000000 < a) := by rw [UInt64.lt_iff_toNat_lt]; show ¬ 0x7ff0000000000000 < a.toNat; omega
+  have hnc : ¬ (0x7ff0000000000000 < c) := by rw [UInt64.lt_iff_toNat_lt]; show ¬ 0x7ff0000000000000 < c.toNat; omega
+  have ka : fkey a = (a.toNat : Int) := by simp [fkey, ha1, ha2]
+  have kc : fkey c = (c.toNat : Int) := by simp [fkey, hc1, hc2]
+  have na : fnan a = false := by simp [fnan, ha1, hna]
+  have nc : fnan c = false := by simp [fnan, hc1, hnc]
+  rw [fcmpBits_ge, fcmpBits_lt, fcmpBits_eq, ka, kc, na, nc]
+  simp only [Bool.or_false, Bool.false_eq_true, if_false, ge_iff_le, Int.ofNat_le, Int.ofNat_lt,
+    UInt64.le_iff_toNat_le, UInt64.lt_iff_toNat_lt]
+  refine ⟨trivial, trivial, ?_⟩
+  congr 1
+  by_cases h : a = c
+  · subst h; simp
+  · have : ¬ ((a.toNat : Int) = (c.toNat : Int)) := fun hh => h (UInt64.toNat_inj.mp (by exact_mod_cast hh))
+    rw [(beq_eq_false_iff_ne).2 this, (beq_eq_false_iff_ne).2 h]
+
+/-! ## the contract of `ryuFtoaShortest` on the arguments `appendFloatF` passes -/
+
+/-- `mant` after the `switch exp` -/
+def goMant (bits : UInt64) : UInt64 :=
+  if exOf bits = 0 then bits &&& 4503599627370495 else (bits &&& 4503599627370495) ||| 4503599627370496
+/-- `exp` after `exp += bias` -/
+def goExp (bits : UInt64) : Int := (if exOf bits = 0 then 1 else (exOf bits : Int)) + (-1023)
+
+theorem or_implicit (bits : UInt64) :
+    ((bits &&& 4503599627370495) ||| 4503599627370496).toNat = (bits &&& 4503599627370495).toNat + 2^52 := by
+  have h := fr_toNat bits
+  have hlt : (bits &&& 4503599627370495).toNat < 2^52 := by rw [h]; exact Nat.mod_lt _ (by decide)
+  rw [UInt64.toNat_or]
+  show (bits &&& 4503599627370495).toNat ||| 1 <<< 52 = _
+  rw [Nat.or_comm, ← Nat.shiftLeft_add_eq_or_of_lt hlt]
+  simp [Nat.shiftLeft_eq]; omega
+
+theorem shortest_abs (bits : UInt64) : shortest (absOf bits) =
+    if exOf bits = 0 then
+      (if (bits &&& 4503599627370495).toNat = 0 then { digits := [], dp := 0 }
+       else shortestFrom (bits &&& 4503599627370495).toNat (-1074) false)
+    else shortestFrom ((bits &&& 4503599627370495).toNat + 2^52) ((exOf bits : Int) - 1075)
+      ((bits &&& 4503599627370495).toNat == 0 && decide (exOf bits > 1)) := by
+  have h1 : ((absOf bits >>> 52) &&& 0x7ff).toNat = exOf bits := exOf_abs bits
+  have h2 := fr_abs bits
+  unfold shortest
+  simp only [h1, h2]
+  by_cases hx : exOf bits = 0
+  · by_cases hf : (bits &&& 4503599627370495).toNat = 0 <;> simp [hx, hf]
+  · simp [hx]
+
+theorem ryu_contract (bits : UInt64) :
+    extCall "ryuFtoaShortest" [.u64 (goMant bits), .int (goExp bits - 52)] =
+      some [.bytes (asc (shortest (absOf bits)).digits).toArray, .int (shortest (absOf bits)).digits.length,
+        .int (shortest (absOf bits)).dp] := by
+  rw [shortest_abs]
+  unfold goMant goExp
+  by_cases hx : exOf bits = 0
+  · simp only [hx, if_true]
+    by_cases hf : bits &&& 4503599627370495 = 0
+    · simp [extCall, hf, asc]
+    · have hf' : ¬ (bits &&& 4503599627370495).toNat = 0 := fun hh => hf (UInt64.toNat_inj.mp hh)
+      have hlt : (bits &&& 4503599627370495).toNat < 2^52 := by rw [fr_toNat]; exact Nat.mod_lt _ (by decide)
+      have hne : ¬ bits &&& 4503599627370495 = 4503599627370496 := by
+        intro hh; rw [hh] at hlt; exact absurd hlt (by decide)
+      simp [extCall, hf, hf', hne, asc, -UInt64.toNat_and]
+  · simp only [hx, if_false]
+    have hor := or_implicit bits
+    have hne : ¬ ((bits &&& 4503599627370495) ||| 4503599627370496) = 0 := by
+      intro hh; rw [hh] at hor; simp [-UInt64.toNat_and] at hor
+    have he : (exOf bits : Int) + -1023 - 52 = (exOf bits : Int) - 1075 := by omega
+    have hlc : (((bits &&& 4503599627370495) ||| 4503599627370496) == 4503599627370496 &&
+          decide ((exOf bits : Int) - 1075 > -1074)) =
+        ((bits &&& 4503599627370495).toNat == 0 && decide (exOf bits > 1)) := by
+      congr 1
+      · by_cases hz : (bits &&& 4503599627370495).toNat = 0
+        · have : ((bits &&& 4503599627370495) ||| 4503599627370496) = 4503599627370496 :=
+            UInt64.toNat_inj.mp (by rw [hor, hz]; rfl)
+          simp [this, hz, -UInt64.toNat_and]
+        · have : ¬ ((bits &&& 4503599627370495) ||| 4503599627370496) = 4503599627370496 := by
+            intro hh
+            have := congrArg UInt64.toNat hh
+            rw [hor] at this
+            have h2 : (4503599627370496 : UInt64).toNat = 2^52 := rfl
+            omega
+          rw [(beq_eq_false_iff_ne).2 this, (beq_eq_false_iff_ne).2 hz]
+      · apply decide_eq_decide.mpr; omega
+    simp only [extCall, beq_self_eq_true, if_true, he, hlc, hor]
+    simp [hne, asc, -UInt64.toNat_and]
+
+/-! ## the exponent clean-up -/
+
+theorem getD_tail (dst b : Bytes) (k : Nat) (h1 : 1 ≤ k) (hk : k ≤ b.size) :
+    (dst ++ b).getD ((dst ++ b).size - k) 0 = b.getD (b.size - k) 0 := by
+  have h2 : dst.size + b.size - k < dst.size + b.size := by omega
+  have h3 : b.size - k < b.size := by omega
+  have h4 : ¬ dst.size + b.size - k < dst.size := by omega
+  have h5 : dst.size + b.size - k - dst.size = b.size - k := by omega
+  simp [Array.getD_eq_getD_getElem?, Array.getElem?_append, h4, h5]
+
+theorem clean_then (dst b : Bytes) (x : UInt8) (h : 2 ≤ b.size) :
+    ((dst ++ b).setIfInBounds ((dst ++ b).size - 2) x).extract 0 ((dst ++ b).size - 1) =
+      dst ++ (b.extract 0 (b.size - 2)).push x := by
+  apply Array.ext_getElem?
+  intro i
+  simp only [Array.getElem?_extract, Array.getElem?_setIfInBounds, Array.getElem?_append, Array.getElem?_push,
+    Array.size_append, Array.size_extract, Array.size_push, Nat.zero_add, Nat.sub_zero]
+  by_cases ha : i < dst.size
+  · have h1 : ¬ dst.size + b.size - 2 = i := by omega
+    have h2 : i < dst.size + b.size - 1 := by omega
+    simp [ha, h1, h2]
+  · by_cases hb : dst.size + b.size - 2 = i
+    · have h2 : i < dst.size + b.size - 1 := by omega
+      have h3 : i - dst.size = min (b.size - 2) b.size := by omega
+      have h4 : dst.size + b.size - 2 < dst.size + b.size := by omega
+      simp [ha, hb, h2, h3, h4]
+      omega
+    · by_cases hc : i < dst.size + b.size - 1
+      · have h3 : ¬ i - dst.size = min (b.size - 2) b.size := by omega
+        have h4 : i - dst.size < min (b.size - 2) b.size := by omega
+        have h5 : i - dst.size < b.size - 2 := by omega
+        simp [ha, hb, hc, h3, h4, h5]
+        intro hh; omega
+      · have h3 : ¬ i - dst.size = min (b.size - 2) b.size := by omega
+        have h4 : ¬ i - dst.size < min (b.size - 2) b.size := by omega
+        have h6 : ¬ i - dst.size = b.size - 2 := by omega
+        have h7 : ¬ i - dst.size < b.size - 2 := by omega
+        simp [ha, hb, hc, h3, h4, h6, h7]
+
+theorem fmtE_size (neg : Bool) (s : Shortest) : 4 ≤ (fmtE neg s).size := by
+  unfold fmtE
+  simp only [Id.run, bind, pure, forIn_list_push]
+  have hnat : ∀ a, 10 ≤ a → 1 ≤ (natToAscii a).size := by
+    intro a ha
+    have h := natDigits_length_le a 1 (by decide)
+    have : (natToAscii a).size = (natDigits a).length := by rw [← natToAscii_toList]; simp
+    rw [this]
+    by_cases hl : (natDigits a).length ≤ 1
+    · have := h.1 hl; omega
+    · omega
+  generalize (if s.digits.isEmpty then (0 : Int) else s.dp - 1) = ex
+  by_cases h2 : ex.natAbs < 10
+  · cases neg <;> by_cases h1 : s.digits.length > 1 <;> simp [h1, h2] <;> omega
+  · have := hnat _ (Nat.le_of_not_lt h2)
+    cases neg <;> by_cases h1 : s.digits.length > 1 <;> simp [h1, h2] <;> omega
+
+/-- the "clean up e-09 to e-9" step as the Go code does it, on the whole of `dst` -/
+def goClean (all : Bytes) : Bytes :=
+  if all.getD (all.size - 4) 0 = 101 ∧ all.getD (all.size - 3) 0 = 45 ∧ all.getD (all.size - 2) 0 = 48 then
+    (all.setIfInBounds (all.size - 2) (all.getD (all.size - 1) 0)).extract 0 (all.size - 1)
+  else all
+
+theorem goClean_append (dst b : Bytes) (h : 4 ≤ b.size) : goClean (dst ++ b) = dst ++ cleanExp b := by
+  unfold goClean cleanExp
+  rw [getD_tail dst b 4 (by omega) h, getD_tail dst b 3 (by omega) (by omega), getD_tail dst b 2 (by omega) (by omega),
+    getD_tail dst b 1 (by omega) (by omega)]
+  simp only [beq_iff_eq, ge_iff_le, h, true_and]
+  split
+  · exact clean_then dst b _ (by omega)
+  · rfl
 
 end SJ.GoFloatFmt
